@@ -35,7 +35,7 @@ class C05(Check):
             if rng.random() < 0.6:
                 scn["inj"].append({"k": "abs", "m": rng.randrange(len(MU.ABSTRACT)), "seed": rng.randrange(1 << 30)})
             else:
-                names = independent if n > 1 else sorted(MU.RAW) + sorted(MU.LAZY) + sorted(MU.FINAL) + [k0 for k0, v0 in MU.RAW.items() if v0[1] == "after-extent"] * 3
+                names = independent if n > 1 else sorted(MU.RAW) + sorted(MU.LAZY) + sorted(MU.FINAL) + [k0 for k0, v0 in MU.RAW.items() if v0[1] in ("after-extent", "response-first-empty-request")] * 3
                 scn["inj"].append({"k": "raw", "name": rng.choice(names), "def": rng.randrange(64), "seed": rng.randrange(1 << 30)})
         scn["read_seed"] = rng.randrange(1 << 30)
         return scn
